@@ -272,8 +272,13 @@ class OpGen:
                 op = api.NpuConvDepthWiseOperation()
                 od = ifm_b.d
             else:
-                op = api.NpuPoolingOperation(rng.choice([api.NpuPoolingOp.MAX, api.NpuPoolingOp.AVERAGE]))
-                od = ifm_b.d
+                sub = rng.choice([api.NpuPoolingOp.MAX, api.NpuPoolingOp.AVERAGE, api.NpuPoolingOp.REDUCE_SUM])
+                if sub == api.NpuPoolingOp.REDUCE_SUM and ifm_b.layout != api.NpuLayout.NHWC:
+                    sub = api.NpuPoolingOp.AVERAGE
+                op = api.NpuPoolingOperation(sub)
+                od = 1 if sub == api.NpuPoolingOp.REDUCE_SUM else ifm_b.d
+                if sub == api.NpuPoolingOp.REDUCE_SUM:
+                    self.count("pool_reduce_sum")
             op.ifm = fm_from_buf(api, ifm_b, quant)
             op.kernel = api.NpuKernel(kw, kh, sx, sy, dx, dy)
             op.padding = api.NpuPadding(top=top, left=left, bottom=bottom, right=right)
@@ -285,6 +290,8 @@ class OpGen:
                     r = rng.choice(self.wranges)
                     op.biases = [api.NpuAddressRange(r.region, r.address, max(16, r.length // 16 * 16)) for _ in op.biases]
             odtype = ifm_b.dtype
+            if kind == "pool" and od == 1 and ifm_b.d != 1 and rng.random() < 0.5:
+                odtype = api.NpuDataType.INT32
         # OFM: a new buffer, or an existing one of the right shape (WAW / WAR with earlier operations)
         fit = lambda b: (b.h, b.w, b.d) == (oh, ow, od) and b.dtype == odtype and b is not ifm_b
         ofm_b = self.pick_buf(fit, 0.35)
@@ -379,3 +386,81 @@ def describe_op(api, op):
             "activation": (op.activation.op_type.name, op.activation.lookup_table_index) if op.activation else None,
             "block_config": list(op.block_config),
             "block_traversal": getattr(getattr(op, "block_traversal", None), "name", None)}
+
+
+# ---- known BLOCKDEP defects: which repair forbids a reported overlap -----------------------------------
+
+KNOWN_PAD_KEY = "blockdep-first-job-y-uses-padding-right"
+KNOWN_RSUM_KEY = "blockdep-reduce-sum-ifm-depth-from-ofm"
+
+
+def fixed_blockdeps(arch, ops):
+    """For every kernel operation that has a kernel predecessor: the value the real calc_blockdep returns
+    as is, and with each recorded defect repaired from the outside (never by editing /repo):
+      pad   get_first_job_input_volume takes the y start from padding.top: the operation is copied with its
+            `right` field carrying `top` (`right` is read nowhere else inside calc_blockdep)
+      rsum  get_ifm_ofm_block_depth returns the IFM depth for REDUCE_SUM (the operation reads every channel)"""
+    import copy
+
+    from ethosu.vela import api
+    from ethosu.vela import register_command_stream_util as rcsu
+
+    orig = rcsu.get_ifm_ofm_block_depth
+
+    def patched(arch_, npu_op):
+        if isinstance(npu_op, api.NpuPoolingOperation) and npu_op.sub_op_type == api.NpuPoolingOp.REDUCE_SUM:
+            return npu_op.ifm.shape.depth
+        return orig(arch_, npu_op)
+
+    def bd(prev, o, rsum):
+        rcsu.get_ifm_ofm_block_depth = patched if rsum else orig
+        try:
+            return int(min(rcsu.calc_blockdep(arch, prev, o), arch.max_blockdep))
+        finally:
+            rcsu.get_ifm_ofm_block_depth = orig
+
+    out = {}
+    prev, prev_i = None, None
+    for i, o in enumerate(ops):
+        if isinstance(o, api.NpuDmaOperation):
+            continue
+        if prev is not None:
+            o2 = o
+            if o.padding is not None and o.padding.right != o.padding.top:
+                o2 = copy.copy(o)
+                o2.padding = api.NpuPadding(top=o.padding.top, left=o.padding.left, bottom=o.padding.bottom, right=o.padding.top)
+            out[str(i)] = {"prev": prev_i, "emitted": bd(prev, o, False), "pad": bd(prev, o2, False),
+                           "rsum": bd(prev, o, True), "both": bd(prev, o2, True)}
+        prev, prev_i = o, i
+    return out
+
+
+def classify_blockjobs(msg, fixed):
+    """Known-finding keys that explain *every* overlap reported in a `blockjobs=` answer, or None.
+    An overlap (operation c, forward job f, job k from the end of the previous kernel) is explained by a defect
+    when calc_blockdep with that defect repaired returns a value <= f + k, i.e. forbids the overlap."""
+    import re
+
+    found = re.findall(r"op_(\d+)_BLOCKDEP_(\d+):_job_(\d+)_may_run_with_job_(\d+)_from_the_end_of_op_(\d+):", msg)
+    if not found:
+        return None
+    keys = set()
+    for c, _bd, f, k, p in found:
+        fx = fixed.get(str(int(c)))
+        if fx is None or fx["prev"] != int(p):
+            return None
+        lim = int(f) + int(k)
+        if fx["pad"] <= lim:
+            keys.add(KNOWN_PAD_KEY)
+        elif fx["rsum"] <= lim:
+            keys.add(KNOWN_RSUM_KEY)
+        elif fx["both"] <= lim:
+            keys.update((KNOWN_PAD_KEY, KNOWN_RSUM_KEY))
+        else:
+            return None
+    return keys
+
+
+def pipeline_extra(res):
+    """runs inside the pipeline worker: per captured stream, the repaired BLOCKDEP values"""
+    return [fixed_blockdeps(art.arch, art.npu_ops) for art in res.streams]
